@@ -421,6 +421,85 @@ def run_regions(ck, pid):
         ck.extra.setdefault("input_distribution", {})["critical_sections"] = {"regions": int(nrg.group(1)), "accesses_outside_regions": int(nrg.group(2))}
 
 
+def run_bridge(ck, pid):
+    """C02, parser_output_wf: the append programs of onSpan / onEntries regenerated by C05's translator and the column tables of
+    the six ProcessRequest closures regenerated by translate/gen_c02_columns must pass bridge_ok / columns_ok / details_ok of
+    model/IngestBridge.v -- the hypotheses of checked_parsers_give_good_blocks -- and be the programs / tables the instance
+    parsed_pushes_give_good_blocks is stated over.  The generated text is inlined (coq/gen is shared by concurrent runs)."""
+    import vcheck
+    here = os.path.dirname(os.path.dirname(__file__))
+    env = dict(os.environ, VERIF_REPO=vcheck.REPO)
+    env.update({k: v for k, v in vcheck.go_env().items() if k in ("GOCACHE",)})
+    out1 = os.path.join(ck.work, "GenC02Columns.v")
+    rc1, o1 = vcheck.sh([os.path.join(here, "translate", "gen_c02_columns"), out1], env=env, timeout=300)
+    ck.checker_cmds.append("translate/gen_c02_columns")
+    gen1 = open(out1).read() if rc1 == 0 and os.path.exists(out1) else ""
+    ck.obligation("translator gen_c02_columns ran on %s/writer/service/impl" % vcheck.REPO, rc1 == 0 and bool(gen1), o1[-1500:])
+    binp = os.path.join(here, ".build", "bin", "gen_goroutines_writer")
+    if not os.path.exists(binp):
+        with vcheck.Lock("c05gen"):
+            vcheck.sh([os.path.join(here, "translate", "gen_goroutines_writer")], env=env, timeout=300)
+    out2 = os.path.join(ck.work, "GenGoroutinesWriterC02.v")
+    rc2, o2 = vcheck.sh([binp, out2], env=env, timeout=300)
+    ck.checker_cmds.append("translate/gen_goroutines_writer (C05's translator, private output)")
+    gen2 = open(out2).read() if rc2 == 0 and os.path.exists(out2) else ""
+    ck.obligation("translator gen_goroutines_writer (append programs of onSpan / onEntries) ran on %s/writer" % vcheck.REPO, rc2 == 0 and bool(gen2), o2[-1500:])
+    if not gen1 or not gen2:
+        return
+    okm, o = ck.coq_make(["model/IngestBridge.vo", "model/IngestFraming.vo"])
+    if not okm:
+        ck.obligation("model/IngestBridge.v compiles", False, o[-1500:])
+        return
+    gen1 = re.sub(r"^(From Coq|Import ListNotations|Open Scope).*\n", "", gen1, flags=re.M)
+    txt = (gen2 + "\nFrom Coq Require Import Bool NArith.\nFrom Qryn Require Import model.Ingest model.PushHandler model.IngestSpec model.IngestBridge.\n" + gen1 +
+           "\nDefinition BOK := Eval vm_compute in bridge_ok gen_on_span_cols gen_spans_fields gen_attrs_fields gen_on_entries_cols gen_spl_fields gen_tsd_fields.\nPrint BOK.\n"
+           "Definition UNK := Eval vm_compute in (gen_on_span_unknown, ep_unknown gen_on_entries_cols).\nPrint UNK.\n"
+           "Definition COK := Eval vm_compute in columns_ok gen_c02_columns.\nPrint COK.\n"
+           "Definition DOK := Eval vm_compute in details_ok gen_c02_columns gen_c02_details.\nPrint DOK.\n"
+           "Definition AGR := Eval vm_compute in consumed_agree gen_spans_consumed gen_attrs_consumed gen_spl_consumed gen_tsd_consumed.\nPrint AGR.\n"
+           "Definition SAME := Eval vm_compute in (strs_eqb gen_spans_fields spans_fields_model && strs_eqb gen_attrs_fields attrs_fields_model\n"
+           "  && strs_eqb gen_spl_fields spl_fields_model && strs_eqb gen_tsd_fields tsd_fields_model\n"
+           "  && Nat.eqb (List.length (hp_once gen_on_span_cols)) (List.length (hp_once on_span_cols_model))\n"
+           "  && bridge_ok on_span_cols_model gen_spans_fields gen_attrs_fields on_entries_cols_model gen_spl_fields gen_tsd_fields\n"
+           "  && forallb (fun ev => match on_span_cols gen_on_span_cols gen_spans_fields gen_attrs_fields (batch0 gen_spans_fields gen_attrs_fields) ev,\n"
+           "                              on_span_cols on_span_cols_model gen_spans_fields gen_attrs_fields (batch0 gen_spans_fields gen_attrs_fields) ev with\n"
+           "                        | StOk a _, StOk b _ => list_N_eqb (map snd (b_spans a)) (map snd (b_spans b)) && list_N_eqb (map snd (b_attrs a)) (map snd (b_attrs b))\n"
+           "                        | StErr, StErr | StPanic, StPanic => true | _, _ => false end)\n"
+           "       [{| se_tid := 16; se_sid := 8; se_keys := 3; se_vals := 3; se_bytes := 10 |}; {| se_tid := 16; se_sid := 8; se_keys := 3; se_vals := 2; se_bytes := 10 |};\n"
+           "        {| se_tid := 15; se_sid := 8; se_keys := 0; se_vals := 0; se_bytes := 10 |}])%bool.\nPrint SAME.\n")
+    rc, o = ck.coq_eval("%s_bridge" % pid, txt)
+    flat = " ".join(o.split())
+    if rc != 0:
+        ck.obligation("regenerated append programs and column tables evaluated inside Coq", False, o[-1500:])
+        return
+
+    def val(name):
+        m = re.search(r"\b%s = (.*?) : " % name, flat)
+        return m.group(1).strip() if m else "?"
+    ok_b = val("BOK") == "true" and val("UNK").replace(" ", "") in ("(0,0)", "(0%Z,0%Z)")
+    ck.obligation("bridge_ok on the REGENERATED append programs of onSpan / onEntries (every slice field of TempoSamples / TempoTag / TimeSamplesData / "
+                  "TimeSeriesData appended exactly once per row, flush resets the batch, every field a ProcessRequest closure reads exists, no statement "
+                  "the translator did not understand): the hypothesis of checked_parsers_give_good_blocks", ok_b, "bridge_ok = %s, unknown statements = %s" % (val("BOK"), val("UNK")))
+    ok_c = val("COK") == "true" and val("DOK") == "true"
+    ck.obligation("the INSERT columns regenerated from the six ProcessRequest closures (serialize()/toIFace() order, request field appended per column, key column, "
+                  "single-element appends) are kind_fields / keycol / prof_assigned of the model", ok_c, "columns_ok = %s, details_ok = %s" % (val("COK"), val("DOK")))
+    ck.obligation("the fields C05's translator saw the span / log services read are the fields of the regenerated column tables (two translators agree)",
+                  val("AGR") == "true", "consumed_agree = %s" % val("AGR"))
+    ck.obligation("the regenerated struct field lists are the ones the instance parsed_pushes_give_good_blocks is stated over, and the regenerated onSpan behaves as the "
+                  "transcribed one on probe spans", val("SAME") == "true", "SAME = %s" % val("SAME"))
+    if not (ok_b and ok_c and val("AGR") == "true" and val("SAME") == "true"):
+        m1 = re.search(r"Definition gen_on_span_cols.*?Definition gen_ffa_guard", gen2, re.S)
+        m2 = re.search(r"Definition gen_on_entries_cols.*?gen_tsd_consumed[^\n]*", gen2, re.S)
+        ck.violation({"property": pid, "kind": "the batching handlers / ProcessRequest closures are not the ones the parser-to-block bridge is proved for",
+                      "explanation": "model/IngestBridge.v: a request sent by a parser is the table of its rows because every slice field of the request struct is appended exactly once "
+                                     "per submitted row (bridge_ok) and every INSERT column reads one such field (columns_ok / details_ok); the regenerated programs / tables fail that check, "
+                                     "so a block can hold a row whose fields come from different submitted rows, or columns of different lengths",
+                      "bridge_ok": val("BOK"), "unknown_statements": val("UNK"), "columns_ok": val("COK"), "details_ok": val("DOK"), "consumed_agree": val("AGR"), "same": val("SAME"),
+                      "generated_columns": gen1[-3000:], "generated_on_span": (m1.group(0) if m1 else "")[:3000], "generated_on_entries": (m2.group(0) if m2 else "")[:2000],
+                      "replay": "translate/gen_c02_columns /dev/stdout; translate/gen_goroutines_writer; compare with kind_fields / on_span_cols_model in coq/model"}, no_input=True)
+    ck.extra.setdefault("input_distribution", {})["bridge"] = {"services": 6, "bridge_ok": val("BOK"), "columns_ok": val("COK"), "details_ok": val("DOK")}
+
+
 # ---------------------------------------------------------------------------------------------- level 2 (HTTP handlers)
 L2KINDS = ["series", "samples", "tags", "spans", "profile"]
 # errTexts of harness/cmd/ingest/main.go (field "e" of a failing ret)
